@@ -52,6 +52,24 @@ pub open spec fn acc(v: Seq<Seq<u8>>, idx: Seq<int>, n: nat) -> Seq<u8>
 } // verus!
 '''
 
+ACC_LEMMAS = r'''
+verus! {
+pub proof fn lemma_acc_push(v: Seq<Seq<u8>>, idx: Seq<int>, x: int)
+    requires idx.len() >= 1,
+    ensures acc(v, idx.push(x), (idx.len() + 1) as nat) == xor_seq(acc(v, idx, idx.len()), v[x]),
+{
+    lemma_acc_prefix(v, idx, idx.push(x), idx.len());
+}
+pub proof fn lemma_acc_prefix(v: Seq<Seq<u8>>, i1: Seq<int>, i2: Seq<int>, n: nat)
+    requires 1 <= n <= i1.len(), n <= i2.len(), forall |j: int| 0 <= j < n ==> i1[j] == i2[j],
+    ensures acc(v, i1, n) == acc(v, i2, n),
+    decreases n,
+{
+    if n > 1 { lemma_acc_prefix(v, i1, i2, (n - 1) as nat); }
+}
+} // verus!
+'''
+
 
 def walk_loops(COMMON, ST_J, ST_S, PUSH):
     """loop annotations shared by enc_into (V-ENCINTO) and enc_indices (V-ENCIDX): the two walks of RFC 6330 5.3.5.3.
@@ -133,20 +151,6 @@ impl SymbolSlab {
          loops=walk_loops(COMMON, 'dest@ == acc(%s, idx, verif_j as nat)' % VIEW, 'dest@ == acc(%s, idx, (d as int + verif_s as int) as nat)' % VIEW,
                           lambda x: 'lemma_acc_push(%s, oi, %s);' % (VIEW, x)),
          append='proof { assert(b0 == source_tuple.2 as int && b10 == source_tuple.5 as int && a == source_tuple.1 && a1 == source_tuple.4 && d == source_tuple.0 && d1 == source_tuple.3); assert(idx.len() == d + d1 && ks.len() == d1 as int); assert(enc_idx_ok(idx, ks, source_tuple, w_of(%s), p_of(%s), p1_of(%s))); }' % (K, K, K))
-    u.raw("""
-pub proof fn lemma_acc_push(v: Seq<Seq<u8>>, idx: Seq<int>, x: int)
-    requires idx.len() >= 1,
-    ensures acc(v, idx.push(x), (idx.len() + 1) as nat) == xor_seq(acc(v, idx, idx.len()), v[x]),
-{
-    lemma_acc_prefix(v, idx, idx.push(x), idx.len());
-}
-pub proof fn lemma_acc_prefix(v: Seq<Seq<u8>>, i1: Seq<int>, i2: Seq<int>, n: nat)
-    requires 1 <= n <= i1.len(), n <= i2.len(), forall |j: int| 0 <= j < n ==> i1[j] == i2[j],
-    ensures acc(v, i1, n) == acc(v, i2, n),
-    decreases n,
-{
-    if n > 1 { lemma_acc_prefix(v, i1, i2, (n - 1) as nat); }
-}
-""", label='xor accumulation lemmas')
     u.raw('} // verus!')
+    u.raw(ACC_LEMMAS, label='xor accumulation lemmas')
     return u
